@@ -14,10 +14,22 @@ Proof. exact serial_abort_truthful. Qed.
 Print Assumptions C18_serial_truthful.
 
 (** the same for breadth-first runs of any group size *)
-Theorem C18_byline_truthful : forall scan_last n i l,
-  raised (byline_abort scan_last n i l) = true /\ status_complete (byline_abort scan_last n i l) = false.
+Theorem C18_byline_truthful : forall scan_last finished n i l,
+  raised (byline_abort scan_last finished n i l) = true /\ status_complete (byline_abort scan_last finished n i l) = false.
 Proof. exact byline_abort_truthful. Qed.
 Print Assumptions C18_byline_truthful.
+
+(** breadth-first: every member is saved; a member whose scan ended on an earlier line keeps its complete result, the others are
+    recorded with the truth about the line they are on *)
+Theorem C18_byline_members : forall scan_last finished n i l j, (j < n)%nat ->
+  saved (byline_abort scan_last finished n i l) j =
+    Some (let cur := if Nat.leb j i then l else l - 1 in if finished j cur then true else scan_last j cur).
+Proof. exact byline_abort_saved. Qed.
+Print Assumptions C18_byline_members.
+Theorem C18_byline_finished_member : forall scan_last finished n i l j, (j < n)%nat -> finished j (if Nat.leb j i then l else l - 1) = true ->
+  saved (byline_abort scan_last finished n i l) j = Some true.
+Proof. exact byline_abort_finished_member. Qed.
+Print Assumptions C18_byline_finished_member.
 
 (** the aborting member is saved with the aborting error and its line number *)
 Theorem C18_aborting_member : forall scan_last i l,
